@@ -101,6 +101,7 @@ pub const SNIPPETS: &[Snippet] = &[
     // ---------------- convert_square_root_call
     s("sq:basic", "emit(math.sqrt(@S), math.sqrt(2.25), math.sqrt(0), math.floor(math.sqrt(@S)))"),
     s("sq:statement", "math.sqrt(get1())\nmath.sqrt(4)\nmath.sqrt((get2()))\nmath.sqrt(@S, get1())\nlocal t# = {x = 9}\nmath.sqrt(t#.x)\nmath.sqrt'16'\nmath.sqrt(get1() + 1)\nmath.sqrt(2 * 8)"),
+    s("sq:statement-discard", "local _ = {y = @A, f = function(v) emit('f', v) return v end}\nlocal t# = {x = 4}\npcall(function() math.sqrt{t#.x, _.y} end)\npcall(function() math.sqrt{get1(), t#.x, t#.x, _.f(1), t#.x, _[get2()]} end)\npcall(function() math.sqrt{[t#.x] = _.y, t#.x} end)\npcall(function() math.sqrt{t#.x, (t#.x), get1(), t#.x} end)\npcall(function() math.sqrt{a = t#.x, b = (_.y)} end)\nemit(_.y)"),
     s("sq:shadow-local", "do\n  local math = {sqrt = function(x) emit('fake', x) return -1 end}\n  emit(math.sqrt(4))\n  math.sqrt(9)\nend\nemit(math.sqrt(4))"),
     s("sq:shadow-param", "local function usem#(math) return math.sqrt(9) end\nemit(usem#({sqrt = function(x) return x * 2 end}), math.sqrt(9))"),
     s("sq:shadow-for", "for _, math in ipairs({{sqrt = function(x) return x + 100 end}}) do\n  emit(math.sqrt(1))\nend\nemit(math.sqrt(1))"),
